@@ -15,7 +15,6 @@ THEOREMS = [
     "C15_ifft_with_options_spec", "C15_coset_fft_spec", "C15_coset_ifft_coset_fft", "C15_lde_spec",
     "C15_eval_horner", "C15_divide_by_linear_spec", "C15_mul_spec", "C15_trim_to_len_spec",
     "C15_trimmed_spec", "C15_div_rem_long_spec", "C15_div_rem_long_zero_divisor",
-    "C15_div_rem_newton_refuted", "C15_inv_mod_xn_refuted", "C15_inv_mod_xn_panics",
     "C15_eval_with_powers_spec", "C15_interpolate2_spec", "C15_interpolate_on_node_partial",
 ]
 
@@ -112,7 +111,7 @@ def main():
         exprs = ["run_fft [1; 2; 3; 4; 5; 6; 7; 8]", "run_ifft [1; 2; 3; 4]", "run_fft_r [1; 5; 6; 0; 0]",
                  "run_revidx_inplace [8192; 0;1;2;3;4;5;6;7;8;9;10;11;12;13;14;15;16;17;18;19;20;21;22;23;24;25;26;27;28;29;30;31]",
                  "run_polymul [2; 1; 2; 3; 4; 5]", "run_divremlong [4; 0; 1; 0; 1; 1; 0; 1]",
-                 "run_divrem [4; 0; 1; 0; 1; 1; 0; 1]", "run_invmodxn [5; 1; 0; 18446744069414584320]",
+                 "run_divrem [4; 0; 1; 0; 1; 1; 0; 1]", "run_invmodxn [5; 1; 0; 18446744069414584320]", "run_invmodxn [4; 1; 0; 18446744069414584320]",
                  "run_fft [1; 2; 3]"]
         incoq = c.coq_eval_subset(["Model.C15Run"], exprs)
     nthm = len(THEOREMS)
@@ -141,8 +140,8 @@ def main():
         "running the harness with the target features on",
         "the aarch64 variant of reverse_index_bits_in_place_small is not modelled",
         "release build: debug_assert!s of PolynomialValues::new / eval_with_powers are not part of the model",
-        "div_rem (Newton inversion) and inv_mod_xn are modelled faithfully and REFUTED (C15_div_rem_newton_refuted, "
-        "C15_inv_mod_xn_refuted, C15_inv_mod_xn_panics); the implementation shows the same outputs (oracle violations)",
+        "div_rem / inv_mod_xn: the defects found on the code before /repo commit 119d559 are repaired; the model mirrors "
+        "the repaired code",
         "interpolate / interpolant / barycentric_weights / ZeroPolyOnCoset / get_unique_coset_shifts: correspondence and "
         "oracle only, apart from C15_interpolate_on_node_partial and C15_interpolate2_spec"])
 
